@@ -302,6 +302,12 @@ func (e *Env) Lease(c int) *message.ChannelLog {
 	return e.leases[c]
 }
 
+// adopted reports whether the channel's local retention boundary already covers through.
+func (e *Env) adopted(c int, through uint64) bool {
+	st, ok, err := e.Lease(c).LoadRetentionState(context.Background())
+	return err == nil && ok && through <= st.LocalRetentionThroughSeq
+}
+
 func (e *Env) Store(c int) *message.ChannelStore {
 	if e.stores[c] == nil {
 		id := e.chID(c)
@@ -670,7 +676,22 @@ func (e *Env) Exec(op Op) (Out, []Dump) {
 			out = Out{Kind: "XOk"}
 		}
 	case "trim":
-		res, err := e.Lease(c).TrimPrefixThroughLimit(ctx, op.A, message.RetentionTrimOptions{MaxMessages: int(op.B), MaxBytes: int(op.D)})
+		// One model op (OTrim), three entry points of the same internal
+		// trimPrefixThroughLimit: Mode 1 = ChannelLog.TrimPrefixThrough (only
+		// without limits), Mode 2 = compat ChannelStore.TrimMessagesThroughLimit
+		// (only when the boundary is already adopted, where it must behave like the
+		// typed call); otherwise ChannelLog.TrimPrefixThroughLimit.
+		opts := message.RetentionTrimOptions{MaxMessages: int(op.B), MaxBytes: int(op.D)}
+		var res message.RetentionTrimResult
+		var err error
+		switch {
+		case op.Mode == 1 && op.B == 0 && op.D == 0:
+			res, err = e.Lease(c).TrimPrefixThrough(ctx, op.A)
+		case op.Mode == 2 && op.A > 0 && e.adopted(c, op.A):
+			res, err = e.Store(c).TrimMessagesThroughLimit(ctx, op.A, opts)
+		default:
+			res, err = e.Lease(c).TrimPrefixThroughLimit(ctx, op.A, opts)
+		}
 		if err != nil {
 			fail(err)
 		} else {
